@@ -38,6 +38,13 @@ fn other(s: Side) -> Side {
 /// C10 (any engine): no panic, no internal 'bug:' error surfaced to stream users.
 pub fn no_panic_no_bug(l: &RunLog) -> Vec<Finding> {
     let mut v = vec![];
+    if l.livelock {
+        // a task that spins at one instant starves everything behind the clock: nothing is ever
+        // retransmitted, delivered or timed out again (C02, C03), and it is a hang (C10)
+        for p in ["C02", "C03", "C10"] {
+            v.push(f(p, "livelock", "wake/livelock-at-one-instant", format!("a library task kept the runtime busy for {} polls at one virtual instant: the clock can never advance", crate::duo::sim::SPIN_LIMIT)));
+        }
+    }
     if let Some(p) = &l.panicked {
         v.push(f("C10", "panic", "panic/in-run", format!("panic during the run: {p}")));
     }
@@ -63,6 +70,45 @@ pub fn emitted_wellformed(l: &RunLog) -> Vec<Finding> {
         }
     }
     v
+}
+
+/// C11 (c): the connection id owed to a direction. A SYN announces the id `c` its sender receives on;
+/// everything else the initiator sends carries `c + 1`, everything the responder sends back
+/// (SYN-ACK, data, FIN, and the RESET that refuses the SYN) carries `c`. `wire` is in send order;
+/// injected datagrams only contribute their SYNs. Returns the first offending datagram.
+pub fn first_wrong_conn_id<K: Eq + std::hash::Hash + Copy + std::fmt::Debug>(wire: impl Iterator<Item = (K, K, u8, u16, bool, bool)>) -> Option<String> {
+    // (initiator, responder) -> ids announced by SYNs
+    let mut syns: std::collections::HashMap<(K, K), Vec<u16>> = Default::default();
+    for (i, (from, to, ptype, conn_id, injected, parse_ok)) in wire.enumerate() {
+        if !parse_ok {
+            continue;
+        }
+        if ptype == 4 {
+            syns.entry((from, to)).or_default().push(conn_id);
+            continue;
+        }
+        if injected {
+            continue;
+        }
+        let as_initiator = syns.get(&(from, to)).map(|v| v.iter().any(|c| c.wrapping_add(1) == conn_id)).unwrap_or(false);
+        let as_responder = syns.get(&(to, from)).map(|v| v.contains(&conn_id)).unwrap_or(false);
+        if !as_initiator && !as_responder {
+            return Some(format!(
+                "datagram #{i} ({}) from {from:?} to {to:?} carries connection id {conn_id}; ids announced by SYNs {from:?}->{to:?}: {:?} (would owe +1), {to:?}->{from:?}: {:?} (would owe the same id)",
+                super::debug::type_name(ptype),
+                syns.get(&(from, to)).cloned().unwrap_or_default(),
+                syns.get(&(to, from)).cloned().unwrap_or_default()
+            ));
+        }
+    }
+    None
+}
+
+pub fn emitted_ids(l: &RunLog) -> Vec<Finding> {
+    match first_wrong_conn_id(l.wire.iter().map(|w| (w.from_a, !w.from_a, w.ptype, w.conn_id, w.injected, w.parse_ok))) {
+        Some(m) => vec![f("C11", "emitted-wellformed", "emitted/wrong-connection-id", m)],
+        None => vec![],
+    }
 }
 
 /// C01: at every poll_read return the bytes read so far are a prefix of the bytes the peer's
